@@ -46,11 +46,23 @@ type Op struct {
 	// Clock: the simulated clock / randomness streams this operation got, kept
 	// in explicit (replay) form only when the operation actually used them
 	Clock *ClockJ `json:"clock,omitempty"`
-	Noise string  `json:"noise,omitempty"` // limit-query | limit-schema | fmt-schema | fmt-doc | vars | argmaps | rules | json | prefix-load
+	Noise string  `json:"noise,omitempty"` // limit-query | limit-schema | fmt-schema | fmt-doc | vars | argmaps | rules | json | prefix-load | flood
 	Arg   uint64  `json:"arg,omitempty"`
 	// Depth: extra stack frames between the harness and the library call (the
 	// caller's stack depth is part of the environment a result must not depend on)
 	Depth int `json:"depth,omitempty"`
+	// Align: the texts this operation hands to the library start Align bytes
+	// past an 8-byte boundary (same bytes, another place in memory)
+	Align int `json:"align,omitempty"`
+}
+
+// shifted returns a string equal to text whose first byte sits k bytes past
+// the start of a fresh allocation.
+func shifted(text string, k int) string {
+	if k <= 0 || k > 7 {
+		return text
+	}
+	return (strings.Repeat("#", k) + text)[k:]
 }
 
 // atDepth calls f with n extra frames on the stack.
@@ -126,6 +138,7 @@ type execState struct {
 	docs    map[[2]int]*ast.QueryDocument
 	ssrc    map[int][]*ast.Source // reused schema sources
 	dsrc    map[int]*ast.Source   // reused document sources
+	align   int                   // Op.Align of the operation being executed
 }
 
 func cutsOf(s *Session, i int) []int {
@@ -172,7 +185,7 @@ func (x *execState) schemaSource(i int) []*ast.Source {
 			return src
 		}
 	}
-	src := buildSourcesB(s.Schemas[i].Name, s.Schemas[i].Text, cutsOf(s, i), s.SplitSameName, s.SplitBuiltIn)
+	src := buildSourcesB(s.Schemas[i].Name, shifted(s.Schemas[i].Text, x.align), cutsOf(s, i), s.SplitSameName, s.SplitBuiltIn)
 	if s.ReuseSources {
 		x.ssrc[i] = src
 	}
@@ -193,7 +206,7 @@ func (x *execState) docSource(j int) *ast.Source {
 			return src
 		}
 	}
-	src := &ast.Source{Name: docName(s, j), Input: s.Docs[j]}
+	src := &ast.Source{Name: docName(s, j), Input: shifted(s.Docs[j], x.align)}
 	if s.ReuseSources {
 		x.dsrc[j] = src
 	}
@@ -319,9 +332,11 @@ func (x *execState) runOp(i int, capture bool) (res opResult) {
 			opsOverBudget++
 		}
 	}()
+	x.align = op.Align
 	pan := protect(func() {
 		atDepth(op.Depth, func() { x.runKind(i, op, lkey, vkey, src, &res) })
 	})
+	x.align = 0
 	if pan != "" {
 		// a panic is the library's answer for these texts (C02's subject, not
 		// C10's): it is compared like any other result
@@ -368,7 +383,7 @@ func (x *execState) runKind(i int, op Op, lkey, vkey string, src func() []*ast.S
 			// LoadQuery is an entry point of its own: the property promises that each
 			// way of validating is repeatable, not that two entry points agree with
 			// each other (a change to one of them must not make this check cry wolf)
-			_, errs := gqlparser.LoadQuery(x.schemas[op.S], s.Docs[op.D])
+			_, errs := gqlparser.LoadQuery(x.schemas[op.S], shifted(s.Docs[op.D], op.Align))
 			res.obs = append(res.obs, Obs{fmt.Sprintf("Q|%d|%d", op.S, op.D), gen.RenderErrors(errs), i})
 		default:
 			res.skipped = true
@@ -411,6 +426,18 @@ func (x *execState) noise(op Op) {
 			if d := x.docs[[2]int{op.S, op.D}]; d != nil {
 				var b strings.Builder
 				formatter.NewFormatter(&b).FormatQueryDocument(d)
+			}
+		case "flood":
+			// volume: many small distinct documents (distinct names, escaped and
+			// non-ASCII strings, unknown fields and types) through the normal entry
+			// point. Bounded structures - rings, pools, caches with eviction, intern
+			// tables, wrapping counters - behave differently only once they are full.
+			if sc := x.schemas[op.S]; sc != nil {
+				for i, n := 0, r.Range(40, 400); i < n; i++ {
+					k := r.Intn(1 << 20)
+					doc := fmt.Sprintf("query Flood%d($v%d: Strng%d) {\n  fld%d(arg%d: \"esc\\n%d\\t\\\"q%d\\\" \\u00e9 é\") { sub%d }\n  ... on Typ%d { __typename }\n}\n", k, k, k%7, k, k%5, k, k, k%11, k%13)
+					gqlparser.LoadQuery(sc, doc)
+				}
 			}
 		case "prefix-load":
 			// a shorter source list that shares its backing array with the list
@@ -468,7 +495,7 @@ func (x *execState) noise(op Op) {
 	})
 }
 
-var noiseKinds = []string{"limit-query", "limit-schema", "fmt-schema", "fmt-doc", "vars", "argmaps", "rules", "json", "replace-rule", "prefix-load"}
+var noiseKinds = []string{"limit-query", "limit-schema", "fmt-schema", "fmt-doc", "vars", "argmaps", "rules", "json", "replace-rule", "prefix-load", "flood"}
 
 type sessionRun struct {
 	clocks     []*ClockJ // per op, when used
@@ -703,6 +730,9 @@ func genSession(seed uint64, source string) *Session {
 		if r.Chance(1, 3) {
 			op.Depth = gen.Pick(r, []int{25, 120, 235, 250, 400, 1000})
 		}
+		if r.Chance(1, 3) {
+			op.Align = r.Range(1, 7)
+		}
 		if k != "load" {
 			if nd == 0 {
 				continue
@@ -719,6 +749,11 @@ func genSession(seed uint64, source string) *Session {
 				if len(prev) > 0 {
 					p := gen.Pick(r, prev)
 					op.S, op.D = p.S, p.D
+					if k == "again" && noisy && r.Chance(1, 4) {
+						// volume between the first validation of a document object and
+						// its re-validation
+						s.Ops = append(s.Ops, Op{Kind: "noise", S: p.S, D: p.D, Noise: "flood", Arg: r.U64()})
+					}
 				}
 			}
 		}
